@@ -5,6 +5,7 @@ This module implements the mean stress methods to quantify the interaction of me
 and alternating stresses on the fatigue life of a material.
 '''
 
+import numbers
 import numpy as np
 
 
@@ -55,7 +56,7 @@ def goodmanCorrection( stressRange, ultimateStrength, n=1.0 ):
         raise ValueError( 
             "Input stressRange should have lower stress stressRange[ 0 ] < upper stress stressRange[ 1 ]" )
     # check ultimateStrength
-    if not isinstance( ultimateStrength, int ) and not isinstance( ultimateStrength, float ):
+    if not isinstance( ultimateStrength, numbers.Real ):
         raise ValueError( "ultimateStrength should be a scalar" )
     if ultimateStrength <= 0:
         raise ValueError( "ultimateStrength should be positive" )
@@ -66,7 +67,7 @@ def goodmanCorrection( stressRange, ultimateStrength, n=1.0 ):
         raise ValueError( "Stress ratio should be no less than -1" )
     
     # check safety factor
-    if not isinstance( n, int ) and not isinstance( n, float ):
+    if not isinstance( n, numbers.Real ):
         raise ValueError( "n should be a scalar" )
     if n < 1.0:
         raise ValueError( "Safety factor should be no less than 1.0" )
@@ -133,7 +134,7 @@ def soderbergCorrection( stressRange, yieldStrength, n=1.0 ):
         raise ValueError( 
             "Input stressRange should have lower stress stressRange[ 0 ] < upper stress stressRange[ 1 ]" )
     # check yieldStrength
-    if not isinstance( yieldStrength, int ) and not isinstance( yieldStrength, float ):
+    if not isinstance( yieldStrength, numbers.Real ):
         raise ValueError( "yieldStrength should be a scalar" )
     if yieldStrength <= 0:
         raise ValueError( "yieldStrength should be positive" )
@@ -144,7 +145,7 @@ def soderbergCorrection( stressRange, yieldStrength, n=1.0 ):
         raise ValueError( "Stress ratio should be no less than -1" )
     
     # check safety factor
-    if not isinstance( n, int ) and not isinstance( n, float ):
+    if not isinstance( n, numbers.Real ):
         raise ValueError( "n should be a scalar" )
     if n < 1.0:
         raise ValueError( "Safety factor should be no less than 1.0" )
@@ -211,7 +212,7 @@ def gerberCorrection( stressRange, ultimateStrength, n=1.0 ):
         raise ValueError( 
             "Input stressRange should have lower stress stressRange[ 0 ] < upper stress stressRange[ 1 ]" )
     # check ultimateStrength
-    if not isinstance( ultimateStrength, int ) and not isinstance( ultimateStrength, float ):
+    if not isinstance( ultimateStrength, numbers.Real ):
         raise ValueError( "ultimateStrength should be a scalar" )
     if ultimateStrength <= 0:
         raise ValueError( "ultimateStrength should be positive" )
@@ -222,7 +223,7 @@ def gerberCorrection( stressRange, ultimateStrength, n=1.0 ):
         raise ValueError( "Stress ratio should be no less than -1" )
     
     # check safety factor
-    if not isinstance( n, int ) and not isinstance( n, float ):
+    if not isinstance( n, numbers.Real ):
         raise ValueError( "n should be a scalar" )
     if n < 1.0:
         raise ValueError( "Safety factor should be no less than 1.0" )
